@@ -126,6 +126,13 @@ def generate(seed, prop):
         nmin, nmax = 40, 110
         n_az = 1 if kind == "traditional" else rng.choice([1, 2])
         azimuths = CV.draw_azimuths(rng, n_az, ends=prop in ("C11", "C05", "C06", "C08"))
+    if prop == "C20" and rng.random() < 0.03:
+        # hours of data cut into short windows: hundreds of curves in one panel
+        grid = {"kind": "geom", "lo": 0.5, "hi": 20.0, "n": 8}
+        f = CV.gen_grid(grid)
+        nmin, nmax = 205, 260
+        n_az = 1 if kind != "azimuthal" else rng.choice([1, 2])
+        azimuths = CV.draw_azimuths(rng, n_az)
     curves = CV.draw_curve_sets(rng, len(f), n_az, equal_counts=equal, nmin=nmin, nmax=nmax)
     if nmin >= 40:
         for cs in curves:                      # resonances scattered around the centre like a (log)normal sample
